@@ -21,7 +21,7 @@ class Topic:
         self.tagidx = {}
         self.resync = False    # AtLeastOnce after a restart: position re-learned from the next read
         self.count_known = True
-        self.failed_tags = set()   # entries of appends that returned an error
+        self.failed_tags = {}   # entries of appends that returned an error
         self.inflight_tags = []
     def add(self, tag, ln):
         self.tagidx[tag] = len(self.log)
@@ -62,6 +62,7 @@ class SeqRunner:
         self.transcript = []      # normalised results of every op (used by twin / differential checks)
         self.dead = None
         self.processes = 0
+        self.probe_peeks = False
 
     # ------------------------------------------------------------------ plumbing
     def stat(self, k, n=1):
@@ -114,7 +115,10 @@ class SeqRunner:
                 self.stat('reopens')
                 for T in I.topics.values():
                     if not I.strict:
+                        if T.resync and getattr(T, 'cands', None):
+                            T.consumed = max(T.cands)
                         T.resync = True
+                        T.cands = None
                         T.count_known = False
             return True
         cls = 'open-failed(panic)' if 'panic' in r else f'open-failed(err:{r.get("err")})'
@@ -126,7 +130,7 @@ class SeqRunner:
         self.inst[h].is_open = False
         return r
 
-    def restart_process(self):
+    def restart_process(self, clock=None):
         """clean shutdown of every instance, fresh process, reopen all that were open"""
         open_h = [h for h, I in self.inst.items() if I.is_open]
         for h in open_h:
@@ -134,6 +138,9 @@ class SeqRunner:
         self.close()
         self.spawn()
         self.stat('process_restarts')
+        if clock is not None:
+            self.call({'op': 'clock', 'ms': clock})
+            self.stat('clock_overrides')
         for h in open_h:
             self.do_open(h)
 
@@ -174,7 +181,7 @@ class SeqRunner:
         # the engine marks the topic dirty before it attempts the write
         I.markers[t] = False
         for tag, _ in entries:
-            T.failed_tags.add(tag)
+            T.failed_tags[tag] = f'{what}:{getattr(self, "cur_fault", None) or "rejected"}'
         I.had_failed_op = True
         if 'panic' in r:
             self.transcript.append((what, 'panic'))
@@ -200,7 +207,7 @@ class SeqRunner:
                 return j
             return 'corrupt-bytes'
         if tag in T.failed_tags:
-            return 'failed-op-visible'
+            return f'failed-op-visible({T.failed_tags[tag]})'
         for tn, O in I.topics.items():
             if O is not T and tag in O.tagidx:
                 return 'foreign-entry'
@@ -215,36 +222,47 @@ class SeqRunner:
         """compare returned entries with the model's expectation at the cursor; returns #matched"""
         ctx = self._ctx(I, T); ctx['api'] = api; ctx['topic'] = t
         got = [tuple(g) for g in got]
-        if T.resync and got:
-            j = self._locate(I, T, got[0])
-            if isinstance(j, int):
-                if j > T.consumed:
-                    self.finding('stream', f'skipped(after-restart)', {'expected_at_most': T.consumed, 'got_index': j}, **ctx)
-                self.stat('alo_redelivered_after_restart', T.consumed - j)
-                ctx['alo_rewind'] = T.consumed - j
+        if T.resync:
+            # AtLeastOnce after a restart: the cursor may have been rewound (never advanced). Track the set of cursor positions
+            # that are consistent with everything returned since the restart; entries shorter than 16 bytes carry no tag, so
+            # the position can stay ambiguous for a while.
+            cands = getattr(T, 'cands', None)
+            if cands is None:
+                cands = set(range(0, T.consumed + 1))
+            n = len(got)
+            if n == 0:
+                match = {p for p in cands if p >= len(T.log)}
+            else:
+                match = {p for p in cands if p + n <= len(T.log) and all(summary(*T.log[p + i]) == got[i] for i in range(n))}
+            if match:
+                hi = max(match)
+                self.stat('alo_resync_reads')
                 if consuming:
-                    T.consumed = j
-                    T.resync = False
+                    if n:
+                        self.stat('alo_redelivered_after_restart', max(0, T.consumed - hi))
+                    T.consumed = hi            # the caller adds n
+                    new = {p + n for p in match}
+                    if len(new) == 1:
+                        T.resync = False
+                        T.cands = None
+                    else:
+                        T.cands = new
                 else:
-                    # a peek after restart: compare from j without committing
-                    save = T.consumed
-                    T.consumed = j
-                    try:
-                        return self._check_stream_at(I, T, t, got, api, ctx)
-                    finally:
-                        T.consumed = save
+                    T.cands = match
+                return n
+            if n == 0:
+                self.finding('stream', 'empty-while-unconsumed', {'topic': t, 'candidates': sorted(cands)[:5], 'appended': len(T.log)}, **ctx)
+                return 0
+            j = self._locate(I, T, got[0])
+            if isinstance(j, int) and j > max(cands):
+                self.finding('stream', 'skipped(after-restart)', {'expected_at_most': max(cands), 'got_index': j}, **ctx)
+            elif isinstance(j, int):
+                self.finding('stream', 'mismatch(after-restart)', {'first_index': j, 'candidates': sorted(cands)[:5], 'n': n}, **ctx)
             elif j is None:
-                # short payload: cannot resync on it; compare against every admissible position
-                for p in range(T.consumed, -1, -1):
-                    if p < len(T.log) and summary(*T.log[p]) == got[0]:
-                        if consuming:
-                            T.consumed = p
-                            T.resync = False
-                        break
-                else:
-                    self.finding('stream', 'corrupt-bytes(after-restart)', {'got': got[0]}, **ctx)
+                self.finding('stream', 'corrupt-bytes(after-restart)', {'got': got[0]}, **ctx)
             else:
                 self.finding('stream', j, {'got': got[0]}, **ctx)
+            return 0
         return self._check_stream_at(I, T, t, got, api, ctx)
 
     def _check_stream_at(self, I, T, t, got, api, ctx):
@@ -277,9 +295,75 @@ class SeqRunner:
                 return i
         return len(got)
 
+    def _probe(self, h):
+        fs = self.call({'op': 'file_states'}).get('files')
+        bs = self.call({'op': 'block_states'}).get('blocks')
+        cs = self.call({'op': 'counts', 'h': h}).get('m')
+        return {'files': fs, 'blocks': bs, 'counts': cs}
+
+    def _block_ranges(self, h):
+        """block id -> (topic, first entry index, end entry index) from the engine's layout accessor and the model's entry sizes"""
+        out = {}
+        I = self.inst[h]
+        for t, T in I.topics.items():
+            lay = self.call({'op': 'layout', 'h': h, 't': t}).get('blocks') or []
+            i = 0
+            for bid, _f, _off, used, _tail in lay:
+                acc, first = 0, i
+                while i < len(T.log) and acc + HDR + T.log[i][1] <= used:
+                    acc += HDR + T.log[i][1]
+                    i += 1
+                if acc != used:
+                    return None   # layout does not match the model (failed ops, recovery): no verdict
+                out[bid] = (t, first, i)
+        return out
+
+    def _probe_cmp(self, I, T, t, before, what, h=1):
+        """a non-consuming call may only let bookkeeping catch up: a block may become 'checkpointed' (reclaimable) only if
+        every entry stored in it had already been consumed; counts never change"""
+        after = self._probe_last
+        self.stat('peek_probes')
+        if before['counts'] != after['counts']:
+            self.finding('peek', 'peek-changed-counts', {'topic': t, 'call': what, 'before': before['counts'], 'after': after['counts']}, **self._ctx(I, T))
+        bb = {b[0]: b for b in before['blocks'] or []}
+        newly = [b for b in (after['blocks'] or []) if b[2] and not (bb.get(b[0]) or [0, 0, False])[2]]
+        unmarked = [b for b in (after['blocks'] or []) if not b[2] and (bb.get(b[0]) or [0, 0, False])[2]]
+        if unmarked:
+            self.finding('peek', 'peek-changed-blocks', {'topic': t, 'call': what, 'unmarked': unmarked[:5]}, **self._ctx(I, T))
+        if newly:
+            self.stat('peek_lazy_marks', len(newly))
+            rng = self._block_ranges(h)
+            for b in newly:
+                if rng is None or b[0] not in rng:
+                    self.stat('peek_mark_unmapped')
+                    continue
+                tt, first, end = rng[b[0]]
+                if end > I.topics[tt].consumed:
+                    self.finding('peek', 'peek-made-unconsumed-block-reclaimable',
+                                 {'topic': tt, 'call': what, 'block': b[0], 'entries': [first, end], 'consumed': I.topics[tt].consumed}, **self._ctx(I, T))
+        # per-file counters: only the checkpoint counter may move, by the number of newly marked blocks of that file
+        fb = {f[0]: f for f in before['files'] or []}
+        for f in after['files'] or []:
+            o = fb.get(f[0])
+            if o is None:
+                continue
+            exp = list(o)
+            exp[2] = o[2] + sum(1 for b in newly if b[1] == f[0])
+            if list(f) != exp:
+                self.finding('peek', 'peek-changed-files', {'topic': t, 'call': what, 'before': o, 'after': f, 'newly_marked': len(newly)}, **self._ctx(I, T))
+        for k in fb:
+            if k not in {f[0] for f in after['files'] or []}:
+                self.finding('peek', 'peek-changed-files', {'topic': t, 'call': what, 'vanished': k}, **self._ctx(I, T))
+
     def do_read_next(self, h, t, cp=True):
         I = self.inst[h]; T = I.topic(t)
-        r = self.call({'op': 'read_next', 'h': h, 't': t, 'cp': cp})
+        if self.probe_peeks and not cp:
+            before = self._probe(h)
+            r = self.call({'op': 'read_next', 'h': h, 't': t, 'cp': cp})
+            self._probe_last = self._probe(h)
+            self._probe_cmp(I, T, t, before, 'read_next(cp=false)', h)
+        else:
+            r = self.call({'op': 'read_next', 'h': h, 't': t, 'cp': cp})
         if not r.get('ok'):
             self.transcript.append(('rn', 'panic' if 'panic' in r else 'err:' + str(r.get('err'))))
             kind = 'panic' if 'panic' in r else 'error'
@@ -299,7 +383,13 @@ class SeqRunner:
         req = {'op': 'batch_read', 'h': h, 't': t, 'max': mx, 'cp': cp}
         if start is not None:
             req['start'] = start
-        r = self.call(req)
+        if self.probe_peeks and (not cp or start is not None):
+            before = self._probe(h)
+            r = self.call(req)
+            self._probe_last = self._probe(h)
+            self._probe_cmp(I, T, t, before, f'batch_read(max={mx},cp={cp},start={start})', h)
+        else:
+            r = self.call(req)
         if not r.get('ok'):
             self.transcript.append(('br', 'panic' if 'panic' in r else 'err:' + str(r.get('err'))))
             kind = 'panic' if 'panic' in r else 'error'
@@ -344,36 +434,23 @@ class SeqRunner:
                     return
                 pos = j + 1
                 continue
-            if i == 0:
-                # proper suffix of some entry? use the logical offset as a hint, then scan
-                cands = []
-                off = 0
-                for k, (tag, ln) in enumerate(T.log):
-                    if off <= start < off + HDR + ln:
-                        cands.append(k)
-                    off += HDR + ln
-                cands += [k for k in range(len(T.log)) if k not in cands and T.log[k][1] > g[0]][:300]
-                ok = False
-                for k in cands:
+            if j is None or i == 0:
+                # short entry (< 16 bytes, no tag) or - first element only - a proper suffix of an entry: accept the earliest
+                # admissible position (sound: never stricter than the property)
+                found = None
+                for k in range(pos, len(T.log)):
                     tag, ln = T.log[k]
-                    if ln > g[0] and suffix_summary(tag, ln, ln - g[0]) == g:
-                        pos = k + 1
-                        ok = True
+                    if ln == g[0] and summary(tag, ln) == g:
+                        found = k
+                        break
+                    if i == 0 and ln > g[0] and suffix_summary(tag, ln, ln - g[0]) == g:
+                        found = k
                         self.stat('offset_suffix_hits')
                         break
-                if ok:
+                if found is not None:
+                    pos = found + 1
                     continue
-            if j is None:
-                # short entry (< 16 bytes): identified by content at some position >= pos
-                for k in range(pos, len(T.log)):
-                    if summary(*T.log[k]) == g:
-                        pos = k + 1
-                        break
-                else:
-                    self.finding('offset', 'offset-read-not-subsequence', {'why': 'unknown-short', 'i': i, 'got': g, 'start': start}, **ctx)
-                    return
-                continue
-            self.finding('offset', 'offset-read-not-subsequence', {'why': j, 'i': i, 'got': g, 'start': start}, **ctx)
+            self.finding('offset', 'offset-read-not-subsequence', {'why': j or 'unknown-short', 'i': i, 'got': g, 'start': start}, **ctx)
             return
 
     def do_count(self, h, t):
@@ -463,7 +540,7 @@ class SeqRunner:
             self.reopen(h)
             self.inst[h].markers_touched_this_life = {}
         elif k == 'restart':
-            self.restart_process()
+            self.restart_process(a.get('clock'))
             for I in self.inst.values():
                 I.markers_touched_this_life = {}
         elif k == 'append':
@@ -472,6 +549,8 @@ class SeqRunner:
         elif k == 'batch':
             self.do_batch(h, a['t'], [tuple(e) for e in a['entries']], a.get('expect', 'ok'), a.get('rep'))
             self.inst[h].markers_touched_this_life[a['t']] = True
+        elif k == 'fault':
+            self.do_fault(h, a)
         elif k == 'rn':
             self.do_read_next(h, a['t'], a.get('cp', True))
         elif k == 'br':
@@ -495,6 +574,35 @@ class SeqRunner:
                 self.stats.setdefault('raw', {})[a['save']] = r
         else:
             raise ValueError('unknown op ' + str(k))
+
+    def do_fault(self, h, a):
+        """arm one injected I/O failure, run the wrapped append/batch, disarm; the engine's reply decides the model"""
+        k = a['kind']
+        hits0 = self.call({'op': 'fail_hits'}).get('n', 0)
+        if k.startswith('cqe'):
+            self.call({'op': 'cqe', 'idx': a['idx'], 'res': a['res']})
+        else:
+            self.call({'op': 'failpoint', 'kind': k, 'nth': a.get('nth', 0)})
+        inner = a['then']
+        nf = len(self.findings)
+        self.cur_fault = k
+        try:
+            self.step(inner)
+        finally:
+            self.cur_fault = None
+            if self.w is not None and self.dead is None:
+                self.call({'op': 'failpoint'})
+                self.call({'op': 'cqe', 'idx': -1, 'res': 0})
+                hits = self.call({'op': 'fail_hits'}).get('n', 0)
+                self.stat('faults_armed')
+                if hits > hits0:
+                    self.stat('faults_hit')
+                    self.stat('fault_hit:' + k)
+                    last = self.transcript[-1] if self.transcript else None
+                    if last and last[1] != 'ok':
+                        self.stat('faulted_op_failed')
+                for f in self.findings[nf:]:
+                    f['ctx']['fault'] = k
 
     def do_peekpair(self, h, a):
         """a peek immediately followed by the consuming call with identical arguments"""
